@@ -65,7 +65,7 @@ REQUIRED_ORACLES = [
     "int_roundtrip_exact", "string_roundtrip_exact", "fixedpoint_half_step", "interval_one_step",
     "float_bytes_exact", "chain_roundtrip", "compress_within_tolerance", "compress_exact",
     "unrepresentable_rejected_or_lossless", "representable_accepted",
-    "encoding_serialize_roundtrip", "data_serialize_roundtrip", "column_roundtrip", "file_roundtrip",
+    "encoding_serialize_roundtrip", "data_serialize_roundtrip", "column_roundtrip", "file_roundtrip", "masked_view_leaves_column",
 ]
 ANCHORS = [
     "biotite.structure.io.pdbx.compress:compress",
@@ -137,6 +137,7 @@ T_C_OVER = "compress_float_int32_overflow"     # S09: non-finite or max|x|*10^de
 T_C_UNPACK = "compress_float_factor_unpackable"  # decimals >= 20: factor 10**d does not fit msgpack / float32
 T_C_HANG = "compress_float_nonterminating"     # decimals needed > what np.round can do (10**d overflows)
 T_C_EMPTY = "compress_empty_array"
+T_C_PACK32 = "compress_packs_value_outside_int32"   # long column with a value >= 2**31: the size heuristic admits integer packing
 T_BE = "bigendian_64bit_or_float16_input"      # TypeCode.from_dtype compares dtype == np.int64 byte-order sensitively
 
 REJECT = (ValueError, OverflowError, IndexError)
@@ -1298,6 +1299,33 @@ def case_compress(rng, ctx):
     cls = None
     if kind == "int":
         x = variant(rng, gen_ints(rng, ctx, beyond32=True, allow_empty=empty_ok))
+        r = rng.random()
+        if r < 0.10:
+            # identifiers beyond the signed 32-bit range (delta/run-length friendly): consecutive or slowly growing values
+            # around 2**31, 3e9 and the top of uint32
+            dt = pick(rng, ["uint32", "uint32", "int64", "uint64"])
+            n = max(3, len(x))
+            step = int(pick(rng, [1, 1, 1, 2, 7]))
+            base = int(pick(rng, [2**31 - n * step // 2, 2**31, 2**31 + 5, 3_000_000_000, 2**32 - 1 - n * step, 2**31 - n * step - 1]))
+            vals = base + np.arange(n, dtype=np.int64) * step
+            if rng.random() < 0.3:
+                vals = vals + rng.integers(0, 2, size=n)
+            if rng.random() < 0.3:
+                vals = np.repeat(vals[: max(1, n // 3)], 3)[:n]
+            x = variant(rng, vals.astype(dt))
+            ctx.op("compress_ids_beyond_int32")
+        elif r < 0.125:
+            # long arrays: only here the size heuristic of compress() lets integer packing compete for columns that contain
+            # a few huge values (the packed form of 2**31 alone has 32769 16-bit elements)
+            dt = pick(rng, ["uint32", "uint32", "uint32", "int32", "int64"])
+            n = int(pick(rng, [33000, 40000, 70000, 120000]))
+            vals = rng.integers(0, int(pick(rng, [2, 200, 60000])), size=n).astype(np.int64)
+            lo_, hi_ = tc_range(dt)
+            huge = [hi_, hi_ - 1, min(hi_, 2**31), min(hi_, 2**31 + 5), min(hi_, 3_000_000_000)] + ([lo_] if lo_ < 0 else [])
+            for _ in range(1 if n < 70000 or rng.random() < 0.6 else 2):
+                vals[int(rng.integers(n))] = int(pick(rng, huge))
+            x = vals.astype(dt)
+            ctx.op("compress_long_array")
         # inside the documented storage type -> must work; inside the range compress() could re-type to
         # (uint32 for a non-negative int64 array) -> may work; otherwise it has to be rejected
         must = fits(x.tolist(), TC_OF[x.dtype.name])
@@ -1502,6 +1530,21 @@ def judge_column(ctx, oracle, col, x, specs, mask, what, tol=None):
         if view != exp:
             i = first_diff(view, exp)
             ctx.fail(oracle, "%s: as_array(str)[%d] = %r, expected %r" % (what, i, view[i] if i < len(view) else None, exp[i] if i < len(exp) else None))
+    # the masked view in the column's own type: masked rows read `masked_value`, and asking for it leaves the column
+    # itself (its data, a later view, a later serialisation) as it was
+    if mask is not None and arr.dtype.kind in "iuf" and len(arr) > 0:
+        ctx.oracle("masked_view_leaves_column")
+        sentinel = 7 if arr.dtype.kind in "iu" else -1.5
+        before = np.array(arr, copy=True)
+        got = col.as_array(arr.dtype, masked_value=sentinel)
+        mk_ = np.array([int(m) for m in mask]) != 0
+        exp = np.where(mk_, np.asarray(sentinel, dtype=arr.dtype), before)
+        if got.dtype != arr.dtype or not np.array_equal(got, exp, equal_nan=arr.dtype.kind == "f"):
+            i = first_diff(got.tolist(), exp.tolist())
+            ctx.fail("masked_view_leaves_column", "%s: as_array(%s, masked_value=%r)[%d] = %r, expected %r" % (what, arr.dtype.name, sentinel, i, got.tolist()[i:i + 1], exp.tolist()[i:i + 1]))
+        after = col.data.array
+        if not np.array_equal(after, before, equal_nan=arr.dtype.kind == "f") or not np.array_equal(col.as_array(), before, equal_nan=arr.dtype.kind == "f"):
+            ctx.fail("masked_view_leaves_column", "%s: as_array(%s, masked_value=%r) changed the data stored in the column" % (what, arr.dtype.name, sentinel))
 
 
 def has_nan(x):
@@ -1963,6 +2006,22 @@ def _probe_compress_empty(ctx):
     _compress_probe(ctx, arrays, [1e-6], T_C_EMPTY, True)
 
 
+def _probe_compress_pack32(ctx):
+    """A long uint32 column with one value >= 2**31: compress() tries IntegerPackingEncoding (an int32 codec) on it."""
+    for n, big, hi in ((70000, 2**31, 200), (70000, 3_000_000_000, 60000), (120000, 2**32 - 1, 2)):
+        x = (np.arange(n, dtype=np.int64) * 7919 % hi).astype(np.uint32)
+        x[5] = big
+        ctx.log("compress", {"tolerance": None}, {"dtype": "uint32", "n": n, "x[5]": big, "others": "(i*7919) %% %d" % hi})
+        what = "compress(BinaryCIFData(uint32[%d] with one value %d))" % (n, big)
+        st, val = compress_roundtrip(ctx, pdbx.BinaryCIFData(x), None, what)
+        if st == "ok":
+            try:
+                val = (val[0], pdbx.BinaryCIFData.deserialize(val[1]).array)
+            except (ValueError, OverflowError, IndexError, TypeError) as ex:
+                st, val = "decode_failed", ex
+        settle(ctx, st, val, True, what, lambda oracle: judge_ints(ctx, "compress_exact", val[1], x, what))
+
+
 def _probe_bigendian(ctx):
     """Big-endian int64 / uint64 / float16 arrays with representable values."""
     for dt, vals in ((">i8", [5, 1, -3]), (">u8", [5, 1]), (">f2", [1.5, 2.25])):
@@ -1993,4 +2052,5 @@ PROBES = {
     T_C_UNPACK: _probe_compress_unpackable,
     T_C_HANG: _probe_compress_hang,
     T_C_EMPTY: _probe_compress_empty,
+    T_C_PACK32: _probe_compress_pack32,
 }
